@@ -61,8 +61,11 @@ class CoreLemmas(Contract):
             if sf.nonneg:
                 x = z3.Const('lem_x_%s' % name, sf.seq_sort.basis())
                 one = sf.one(*(ex + [x]))
-                interpreted = not any(d.decl().kind() == z3.Z3_OP_UNINTERPRETED and d.decl().name().startswith('row_')
-                                      for d in [one])
+                def _mentions_row(t):
+                    if z3.is_app(t) and t.decl().kind() == z3.Z3_OP_UNINTERPRETED and t.decl().name().startswith('row_'):
+                        return True
+                    return any(_mentions_row(c) for c in t.children())
+                interpreted = not _mentions_row(one)
                 if interpreted:
                     # h(s) >= 0 by induction: zero >= 0, one >= 0 (given the same for inner nonneg functions), plus keeps it
                     inner = [app >= 0 for sf2, app in _apps(one) if sf2.nonneg]
